@@ -7,7 +7,7 @@ implement the same relation and contain the documented spellings; (c) GO TO / GO
 import re
 
 from rules import lextables as lt
-from rules import tables
+from rules import common, tables
 
 RAW_INPUT_FNS = [
     "lang::lex::BasicLexer::number", "lang::lex::BasicLexer::radix",
@@ -193,6 +193,21 @@ def rule_a(ctx, cr):
     # 14 on the pinned tree; four of them are the D/d/E/e patterns of Val::from's text rewriting,
     # which can be written as one char-array pattern without changing behaviour
     ctx.floor("C16.a", "letter comparisons examined", n_letters, 10)
+    # scanner flags: a flag that is tested but can never become true means the distinction it
+    # stands for (a digit was seen, an exponent was seen, ...) is never made
+    nf = 0
+    for path in sorted(RAW_INPUT_FNS):
+        f = cr.fn(path)
+        if f is None:
+            continue
+        nf += 1
+        for name, vals in common.dead_flags(f):
+            ctx.bad("C16.f", "%s/flag-can-be-set/%s" % (path, name), f.span,
+                    "the flag `%s` of %s is tested but only ever assigned false: the scanner no "
+                    "longer ends a run where the flag says it must (a letter after the digits of "
+                    "an identifier, a second exponent letter)" % (name, path))
+    ctx.ok("C16.f", "scanner-flags/examined", "", "%d scanner functions examined for dead flags" % nf)
+
 
 
 def _root_local(f, o):
